@@ -186,16 +186,20 @@ def handle (j : Json) : R Json := do
     let r ← resultsOfJson (← fld j "results")
     let h ← handleOfJson (← fld j "handle")
     let d ← dirOfJson (← fld j "dir")
+    let env : Env := ⟨match strFD j "locale" "utf-8" with
+      | "ascii" => .ascii
+      | "latin-1" => .latin1
+      | _ => .utf8⟩
     match ← strF j "fn" with
     | "write_to_file" =>
-      let o := writeToFile r h d
+      let o := writeToFileIn env r h d
       return jObj [("model", outToJson o),
         ("spec", jObj [("fault", toJson r.hasFault),
                        ("model_ok", toJson (specWriteToFile r h d o)),
                        ("impl_ok", toJson (onImpl j outOfJson (specWriteToFile r h d)))]),
         ("scope", toJson true)]
     | "dump_records" =>
-      let o := dumpRecords r.records r.results h d
+      let o := dumpRecordsIn env r.records r.results h d
       return jObj [("model", outToJson o),
         ("spec", jObj [("fault", toJson (match h with
                           | .absent => callFault r.records r.results
